@@ -221,7 +221,29 @@ def gen_env(seed):
         env['decimal'] = r.choice([[6, 'ROUND_DOWN'], [3, 'ROUND_CEILING'], [28, 'ROUND_HALF_UP']])
     if r.random() < 0.15:
         env['warnings'] = 'always'                                  # every warning shown every time (never 'error')
+    if r.random() < 0.25:
+        env['logging'] = 'DEBUG'                                    # the application runs in verbose mode (root logger at DEBUG)
     return env
+
+
+_RECURSION_LIMIT_AT_START = sys.getrecursionlimit()
+
+
+def reset_interpreter_state(env=None):
+    """Put the interpreter-wide settings the library (or the code it generates) might have touched back to what this
+    run started with - defaults plus the run's own knobs.  Used by the references between two evaluations, so that
+    "pristine" also means: no leftovers in the decimal context, the calendar module, the recursion limit, logging."""
+    import calendar
+    import decimal
+    import logging
+    decimal.setcontext(decimal.Context(prec=28, rounding=decimal.ROUND_HALF_EVEN, Emin=-999999, Emax=999999, capitals=1, clamp=0,
+                                       flags=[], traps=[decimal.InvalidOperation, decimal.DivisionByZero, decimal.Overflow]))
+    decimal.DefaultContext.prec = 28
+    decimal.DefaultContext.rounding = decimal.ROUND_HALF_EVEN
+    calendar.setfirstweekday(0)
+    sys.setrecursionlimit(_RECURSION_LIMIT_AT_START)
+    logging.getLogger().setLevel(logging.WARNING)
+    apply_env(env)
 
 
 def apply_env(env):
@@ -237,9 +259,17 @@ def apply_env(env):
         ctx = decimal.getcontext()
         ctx.prec = env['decimal'][0]
         ctx.rounding = getattr(decimal, env['decimal'][1])
+        # the decimal context is per thread; threads started later copy DefaultContext, so an application-wide
+        # setting lives there as well
+        decimal.DefaultContext.prec = env['decimal'][0]
+        decimal.DefaultContext.rounding = getattr(decimal, env['decimal'][1])
         fired['env_decimal_context_changed'] = 1
     if env.get('warnings'):
         import warnings
         warnings.simplefilter(env['warnings'])
         fired['env_warnings_filter_changed'] = 1
+    if env.get('logging'):
+        import logging
+        logging.getLogger().setLevel(getattr(logging, env['logging']))
+        fired['env_root_logger_level_changed'] = 1
     return fired
